@@ -20,6 +20,8 @@ type C13Case struct {
 	Others  [][]int `json:"others,omitempty"`
 	Perm    []int   `json:"perm,omitempty"`
 	Target  []int   `json:"target,omitempty"`
+	// Strict: the exact comparison also inside the region of finding F70 (only its witness sets this)
+	Strict bool `json:"strict,omitempty"`
 }
 
 func init() { register("C13.shape", func() Case { return &C13Case{} }) }
@@ -114,7 +116,13 @@ func (c *C13Case) Run() string {
 		if (cerr == nil) != (xerr == nil) {
 			return fmt.Sprintf("%s: Shape.S(%v) error=%v but Slice error=%v", desc, c.Specs, cerr, xerr)
 		}
-		if cerr == nil && !sameUpToOnes([]int(cs), []int(v.Shape())) {
+		// "predict exactly": rank and every dimension. One region is a recorded finding (F70): a result of
+		// one element, which slicing delivers as a scalar () while the calculator keeps length-one axes
+		inF70 := cerr == nil && len(v.Shape()) == 0 && prod([]int(cs)) == 1 && len(cs) > 0
+		if inF70 && !c.Strict {
+			rec.Class("excluded-late:F70")
+		}
+		if cerr == nil && !eqInts([]int(cs), []int(v.Shape())) && !(inF70 && !c.Strict) {
 			return fmt.Sprintf("%s: Shape.S(%v) predicts %v, Slice produces %v", desc, c.Specs, cs, v.Shape())
 		}
 		if xerr == nil {
